@@ -38,7 +38,7 @@ pub open spec fn chain(asts: Seq<AST>, envs: Seq<Environment>, env: Environment,
     &&& forall|i: int| 0 <= i < asts.len() ==> visited(b, #[trigger] asts[i], if carry { envs[i] } else { env }, envs[i + 1])
 }
 
-//@@ FN src/check/constrain/generate/mod.rs | free | gen_vec | props=C09,C08,C03
+//@@ FN src/check/constrain/generate/mod.rs | free | gen_vec | props=C09,C08,C07,C03
 //@@ HINT before
 //@@< let (mut asts, mut inner_env) = $$;
 //@@> let ghost all: Seq<AST> = asts@;
@@ -53,7 +53,7 @@ pub open spec fn chain(asts: Seq<AST>, envs: Seq<Environment>, env: Environment,
 //@@> invariant vit.history@ + vit.iter.remaining() == front, vit.history@.len() == vit.index@, vit.index@ <= front.len(), envs.len() == vit.index@ + 1, envs[0] == *env, inner_env == envs.last(), mono(*old(constr), *constr),
 //@@ INVCLAIM
 //@@< for ast in asts
-//@@> forall|i: int| 0 <= i < vit.index@ ==> visited(*constr, #[trigger] front[i], if carry_env { envs[i] } else { *env }, envs[i + 1]), //# loop_every_statement_so_far_was_checked_in_the_environment_its_predecessor_returned [C09,C08]
+//@@> forall|i: int| 0 <= i < vit.index@ ==> visited(*constr, #[trigger] front[i], if carry_env { envs[i] } else { *env }, envs[i + 1]), //# loop_every_statement_so_far_was_checked_in_the_environment_its_predecessor_returned [C09,C08,C07]
 //@@ HINT after
 //@@< inner_env = generate(&ast, $$)?;
 //@@> proof { envs = envs.push(inner_env); }
@@ -65,11 +65,11 @@ pub open spec fn chain(asts: Seq<AST>, envs: Seq<Environment>, env: Environment,
 //@@> proof { if last is Some { assert(all =~= front.push(last.unwrap())); } else { assert(all =~= front); } }
 //@@ CLAIM before
 //@@< Ok(if carry_env { $$ } else { $$ })
-//@@> assert(chain(all, envs, *env, carry_env, *constr));  //# the_recorded_environments_form_the_chain [C09,C08]
+//@@> assert(chain(all, envs, *env, carry_env, *constr));  //# the_recorded_environments_form_the_chain [C09,C08,C07]
     ensures
         mono(*old(constr), *final(constr)),                  //# visits_are_never_forgotten [C09,C08]
         r matches Ok(e) ==> exists|envs: Seq<Environment>| chain(asts@, envs, *env, carry_env, *final(constr))
-            && e == (if carry_env { envs.last() } else { *env }),                //# every_statement_is_checked_in_the_environment_its_predecessor_returned [C09,C08]
+            && e == (if carry_env { envs.last() } else { *env }),                //# every_statement_is_checked_in_the_environment_its_predecessor_returned [C09,C08,C07]
         r is Err ==> r->Err_0@.len() >= 1,                                       //# rejection_carries_a_diagnostic [-]
 //@@ END
 
@@ -328,7 +328,7 @@ pub open spec fn cases_post(cases: Seq<AST>, env: Environment, e: Environment, b
 }
 
 #[verifier::loop_isolation(false)]
-//@@ FN src/check/constrain/generate/control_flow.rs | free | constrain_cases | props=C09,C08,C03
+//@@ FN src/check/constrain/generate/control_flow.rs | free | constrain_cases | props=C09,C08,C07,C03
 //@@ REPLACE
 //@@< envs.into_iter().reduce(|$e1, $e2| $e1.union(&$e2))
 //@@> verif_union_all(envs)
@@ -343,7 +343,7 @@ pub open spec fn cases_post(cases: Seq<AST>, env: Environment, e: Environment, b
 //@@> invariant envs@.len() == cit.index@, ces.len() == cit.index@, mono(*old(constr), *constr),
 //@@ INVCLAIM
 //@@< for case in cases
-//@@> forall|i: int| 0 <= i < cit.index@ ==> arm_ok(#[trigger] cases@[i], *env, ces[i], envs@[i], *constr), //# loop_every_arm_so_far_was_checked_pattern_first_body_in_the_patterns_environment [C09,C08]
+//@@> forall|i: int| 0 <= i < cit.index@ ==> arm_ok(#[trigger] cases@[i], *env, ces[i], envs@[i], *constr), //# loop_every_arm_so_far_was_checked_pattern_first_body_in_the_patterns_environment [C09,C08,C07]
 //@@ HINT after
 //@@< let cond_env = generate(cond, $$)?;
 //@@> proof { ces = ces.push(cond_env); }
@@ -352,7 +352,7 @@ pub open spec fn cases_post(cases: Seq<AST>, env: Environment, e: Environment, b
 //@@> let ghost bes = envs@;
     ensures
         mono(*old(constr), *final(constr)),                  //# visits_are_never_forgotten [C09,C08]
-        r matches Ok(e) ==> cases_post(cases@, *env, e, *final(constr)),         //# arm_variables_stay_in_their_arm [C09,C08]
+        r matches Ok(e) ==> cases_post(cases@, *env, e, *final(constr)),         //# arm_variables_stay_in_their_arm [C09,C08,C07]
         r is Err ==> r->Err_0@.len() >= 1,                                       //# rejection_carries_a_diagnostic [-]
 //@@ END
 
@@ -392,7 +392,7 @@ pub open spec fn flow_post(ast: AST, env: Environment, r: Constrained, b: Constr
     }
 }
 
-//@@ FN src/check/constrain/generate/control_flow.rs | free | gen_flow | props=C09,C08,C03
+//@@ FN src/check/constrain/generate/control_flow.rs | free | gen_flow | props=C09,C08,C07,C03
 //@@ REPLACE
 //@@< let (raises, errs): (Vec<Result<_, _>>, Vec<Result<_, _>>) = cases $$ .partition(Result::is_ok); if !errs.is_empty() { $$ } let raises = raises.into_iter().map(Result::unwrap).collect();
 //@@> let raises: HashSet<TrueName> = verif_havoc_arm_types(cases)?;
@@ -422,7 +422,7 @@ pub open spec fn flow_post(ast: AST, env: Environment, r: Constrained, b: Constr
 //@@> assert(visited(*constr, **expr, l0g, l1g));
     ensures
         mono(*old(constr), *final(constr)),                  //# visits_are_never_forgotten [C09,C08]
-        flow_post(*ast, *env, r, *final(constr)),                                //# definitions_in_branches_and_loops_do_not_escape [C09]
+        flow_post(*ast, *env, r, *final(constr)),                                //# definitions_in_branches_and_loops_do_not_escape [C09,C07]
         handle_post(*ast, *env, r, *final(constr)),                              //# handle_extends_the_caught_set_for_the_guarded_expression_only [C08]
         r is Err ==> r->Err_0@.len() >= 1,                                       //# rejection_carries_a_diagnostic [-]
 //@@ END
@@ -492,7 +492,7 @@ pub open spec fn builder_post(item: AST, pair: Option<&AST>, conditions: Seq<AST
 //@@> invariant mono(*old(constr), *constr), mono(b_mid, *constr),
     ensures
         mono(*old(constr), *final(constr)),                                      //# visits_are_never_forgotten [C09]
-        builder_post(*item, pair, conditions@, *env, r, *final(constr)),         //# comprehension_variable_is_visible_inside_only [C09]
+        builder_post(*item, pair, conditions@, *env, r, *final(constr)),         //# comprehension_variable_is_visible_inside_only [C09,C07]
         r is Err ==> r->Err_0@.len() >= 1,                                       //# rejection_carries_a_diagnostic [-]
 //@@ END
 
@@ -535,7 +535,7 @@ pub open spec fn with_post(ast: AST, env: Environment, r: Constrained, b: Constr
 //@@ FN src/check/constrain/generate/resources.rs | free | gen_resources | props=C09,C03
     ensures
         mono(*old(constr), *final(constr)),                  //# visits_are_never_forgotten [C09]
-        with_post(*ast, *env, r, *final(constr)),                                //# alias_is_visible_in_the_body_only [C09]
+        with_post(*ast, *env, r, *final(constr)),                                //# alias_is_visible_in_the_body_only [C09,C07]
         r is Err ==> r->Err_0@.len() >= 1,                                       //# rejection_carries_a_diagnostic [-]
 //@@ END
 
